@@ -770,7 +770,7 @@ class Cas:
             if t.supertype is not None and t.supertype.name == "uima.cas.ArrayBase":
                 if t.name == "uima.cas.FSArray" and fs.elements:
                     for ref in fs.elements:
-                        if not ref or ref.xmiID in all_fs:
+                        if not ref or all_fs.get(ref.xmiID) is ref:
                             continue
                         openlist.append(ref)
                 continue  # After processing any arrays, skip to the next FS in the openlist
@@ -797,13 +797,13 @@ class Cas:
                     # For inlined FSArrays / FSList, we still need to scan their members
                     if feature.rangeType.name == TYPE_NAME_FS_ARRAY and feature_value.elements:
                         for ref in feature_value.elements:
-                            if not ref or ref.xmiID in all_fs:
+                            if not ref or all_fs.get(ref.xmiID) is ref:
                                 continue
                             openlist.append(ref)
                     elif feature.rangeType.name == TYPE_NAME_FS_LIST and hasattr(feature_value, FEATURE_BASE_NAME_HEAD):
                         v = feature_value
                         while hasattr(v, FEATURE_BASE_NAME_HEAD):
-                            if v.head and v.head.xmiID not in all_fs:
+                            if v.head and all_fs.get(v.head.xmiID) is not v.head:
                                 openlist.append(v.head)
                             v = v.tail
                     # For primitive arrays / lists, we do not need to handle the elements
@@ -814,7 +814,7 @@ class Cas:
                         f"Feature [{feature.domainType.name}:{feature_name}] should point to a [{feature.rangeType.name}] but the feature value is a [{type(feature_value)}] with the value [{feature_value}]"
                     )
 
-                if feature_value.xmiID in all_fs:
+                if all_fs.get(feature_value.xmiID) is feature_value:
                     continue
 
                 openlist.append(feature_value)
